@@ -467,8 +467,14 @@ def holdsC03 (h : History) (tr : ImplTrace) : Verdict := Id.run do
   let mut dead : List Nat := []
   let mut idx := 0
   let mut known := 0            -- number of nodes created so far
+  let mut obsNode : List (Nat × Nat) := []      -- observer ↦ node, from the `note observe` lines
   for a in h.actions do
     let rec_ : ActionRec := tr[idx]?.getD default
+    for e in rec_.evs do
+      match words e with
+      | ["note", "observe", o, n] =>
+        obsNode := ((o.drop 1).toString.toNat?.getD 0, (n.drop 1).toString.toNat?.getD 0) :: obsNode
+      | _ => pure ()
     match a with
     | .stabilise =>
       let mut next := known
@@ -518,12 +524,17 @@ def holdsC03 (h : History) (tr : ImplTrace) : Verdict := Id.run do
               return some s!"action {idx}: {f}@n{n} ran although the left-hand side of the bind that created n{n} had changed"
           | _ => pure ()
         | _ => pure ()
-      -- dead nodes that are still allocated must be invalid
+      -- dead nodes that are still allocated must be invalid, and their observers must say so
       if rec_.api == "ok" then
         for d in dead do
           match rec_.snapOf d with
           | some sn => if sn.valid then return some s!"action {idx}: n{d} belongs to a generation whose bind has re-run but is still valid"
           | none => pure ()
+        for (o, n) in obsNode do
+          if dead.contains n then
+            let r := (rec_.reads.lookup o).getD "gone"
+            if r.startsWith "ok " then
+              return some s!"action {idx}: o{o} observes n{n}, built by a bind run that is over, and reads `{r}`"
     | _ => pure ()
     -- nodes created so far: top-level creations answer `ok #i`; closures create the rest
     known := match rec_.stats.splitOn "created=" with
@@ -804,6 +815,7 @@ def holdsC14 (h : History) (tr : ImplTrace) : Verdict := Id.run do
   let mut nextDep := 0
   let mut idx := 0
   let mut wasInvalidated : List Nat := []      -- experts invalidated on purpose (xinval)
+  let mut pendingStale : List Nat := []        -- experts that were told `make_stale` and have not recomputed since
   -- the value check needs cutoffs that only suppress equal values (otherwise stale sums are legitimate)
   let exactCutoffs := h.actions.all fun a => match a with
     | .create (.cutoff _ c) => c == .eq || c == .never
@@ -868,6 +880,9 @@ def holdsC14 (h : History) (tr : ImplTrace) : Verdict := Id.run do
               | .xInval eo => match sh.absOf eo with
                 | some en => wasInvalidated := en :: wasInvalidated
                 | none => pure ()
+              | .xStale eo => match sh.absOf eo with
+                | some en => if !(pendingStale.contains en) then pendingStale := en :: pendingStale
+                | none => pure ()
               | _ => pure ()
       if rec_.api == "ok" then
         for x in xs do
@@ -875,6 +890,18 @@ def holdsC14 (h : History) (tr : ImplTrace) : Verdict := Id.run do
           let runs := (invs rec_).filter fun (f, n, _, _) => f.startsWith "x" && n == x.node
           if runs.length > 1 then
             return some s!"action {idx}: expert node n{x.node} was recomputed {runs.length} times in one stabilise"
+          -- make_stale forces a recompute: at the latest in the first stabilise in which the node is needed
+          if pendingStale.contains x.node then
+            match rec_.snapOf x.node with
+            | some sn =>
+              if sn.valid && sn.nec then
+                -- was the request made before the node's run in this very stabilise? the events are in order
+                let evIdx (p : String → Bool) : Option Nat := rec_.evs.findIdx? p
+                let runAt := evIdx fun e => e.startsWith s!"inv x{x.f}@n{x.node} "
+                if runAt.isNone then
+                  return some s!"action {idx}: expert node n{x.node} was made stale and is needed, but was not recomputed"
+                pendingStale := pendingStale.filter (· != x.node)
+            | none => pure ()
           match rec_.snapOf x.node with
           | none => pure ()
           | some sn =>
@@ -1171,7 +1198,15 @@ def holdsC20 (h : History) (tr : ImplTrace) : Verdict := Id.run do
         stored := ((m, key), n) :: stored.filter (·.1 != (m, key))
         made := n :: made
       | _ => pure ()
-    | _ => pure ()
+    | _ =>
+      -- a call from inside a closure that ran the function replaced the stored node by one we cannot name
+      for e in rec_.evs do
+        match words e with
+        | ["note", "memo", m, "invoked", key] =>
+          let mi := (m.drop 1).toString.toNat?.getD 0
+          let ki := key.toInt?.getD 0
+          stored := stored.filter (·.1 != (mi, ki))
+        | _ => pure ()
     for n in made do
       match rec_.snapOf n with
       | some sn => if !sn.valid then return some s!"action {idx}: memoised node n{n} became invalid"
